@@ -456,3 +456,152 @@ func truncateRaw(s string) string {
 	}
 	return s
 }
+
+// ---------- pattern inference for generated quantifiers ----------
+
+type sexpr struct {
+	atom string
+	kids []*sexpr
+	text string
+}
+
+func parseSexpr(s string) *sexpr {
+	pos := 0
+	var parse func() *sexpr
+	parse = func() *sexpr {
+		for pos < len(s) && (s[pos] == ' ' || s[pos] == '\n') {
+			pos++
+		}
+		if pos >= len(s) {
+			return nil
+		}
+		start := pos
+		if s[pos] == '(' {
+			pos++
+			n := &sexpr{}
+			for {
+				for pos < len(s) && (s[pos] == ' ' || s[pos] == '\n') {
+					pos++
+				}
+				if pos >= len(s) {
+					break
+				}
+				if s[pos] == ')' {
+					pos++
+					break
+				}
+				k := parse()
+				if k == nil {
+					break
+				}
+				n.kids = append(n.kids, k)
+			}
+			n.text = s[start:pos]
+			return n
+		}
+		for pos < len(s) && s[pos] != ' ' && s[pos] != ')' && s[pos] != '(' && s[pos] != '\n' {
+			pos++
+		}
+		return &sexpr{atom: s[start:pos], text: s[start:pos]}
+	}
+	return parse()
+}
+
+func (e *sexpr) vars(set map[string]bool, out map[string]bool) {
+	if e == nil {
+		return
+	}
+	if e.atom != "" {
+		if set[e.atom] {
+			out[e.atom] = true
+		}
+		return
+	}
+	for _, k := range e.kids {
+		k.vars(set, out)
+	}
+}
+
+// inferPatterns picks select-terms indexed by bound variables as a
+// multi-pattern covering all bound variables (maximal terms first).
+func inferPatterns(vars []string, body string) string {
+	if len(vars) == 0 {
+		return ""
+	}
+	set := map[string]bool{}
+	for _, v := range vars {
+		set[v] = true
+	}
+	root := parseSexpr(body)
+	if root == nil {
+		return ""
+	}
+	type cand struct {
+		e    *sexpr
+		vars map[string]bool
+	}
+	var cands []cand
+	var walk func(e *sexpr, underQuant bool)
+	walk = func(e *sexpr, underQuant bool) {
+		if e == nil || e.atom != "" {
+			return
+		}
+		if len(e.kids) > 0 && (e.kids[0].atom == "forall" || e.kids[0].atom == "exists" || e.kids[0].atom == "let") {
+			return // nested binders: do not look inside
+		}
+		if len(e.kids) == 3 && e.kids[0].atom == "select" && e.kids[2].atom != "" && set[e.kids[2].atom] {
+			vs := map[string]bool{}
+			e.vars(set, vs)
+			ok := true
+			// pattern terms must not contain interpreted boolean structure
+			if strings.Contains(e.text, "(ite ") && len(e.text) > 4000 {
+				ok = false
+			}
+			if ok {
+				cands = append(cands, cand{e, vs})
+			}
+		}
+		for _, k := range e.kids {
+			walk(k, underQuant)
+		}
+	}
+	walk(root, false)
+	if len(cands) == 0 {
+		return ""
+	}
+	// prefer candidates covering most variables, then shorter text
+	sort.Slice(cands, func(i, j int) bool {
+		if len(cands[i].vars) != len(cands[j].vars) {
+			return len(cands[i].vars) > len(cands[j].vars)
+		}
+		return len(cands[i].e.text) < len(cands[j].e.text)
+	})
+	covered := map[string]bool{}
+	var chosen []string
+	for _, c := range cands {
+		adds := false
+		for v := range c.vars {
+			if !covered[v] {
+				adds = true
+			}
+		}
+		if !adds {
+			continue
+		}
+		if strings.Contains(c.e.text, "(ite ") || strings.Contains(c.e.text, "(and ") || strings.Contains(c.e.text, "(not ") || strings.Contains(c.e.text, "(= ") {
+			// patterns may not contain logical connectives
+			continue
+		}
+		chosen = append(chosen, c.e.text)
+		for v := range c.vars {
+			covered[v] = true
+		}
+		if len(covered) == len(vars) {
+			break
+		}
+	}
+	if len(covered) != len(vars) || len(chosen) == 0 {
+		return ""
+	}
+	return "(" + strings.Join(chosen, " ") + ")"
+}
